@@ -1,5 +1,5 @@
 """C11 — settings are validated, read back, and honoured in the bitstream (DESIGN.md §7.C11)."""
-import os, re, subprocess
+import os, re, subprocess, time
 import common
 
 LEAN_MODULES = ['OpusProps.C11']
@@ -32,10 +32,20 @@ ASSUMPTIONS = [
     '(contract of honour_bandwidth for SILK-only packets; monitored by the honour suite)',
     'opus_alloc is plain malloc (allocation failure is injected with ld --wrap=malloc)',
 ]
-REQUIRED_THEOREMS = [
-    'OpusProps.C11.set_get', 'OpusProps.C11.reject_unchanged', 'OpusProps.C11.ctl_inv',
-    'OpusProps.C11.create_rejects', 'OpusProps.C11.honour_duration', 'OpusProps.C11.honour_channels',
-    'OpusProps.C11.honour_bandwidth', 'OpusProps.C11.lowdelay_celt_only', 'OpusProps.C11.short_frames_celt_only',
+REQUIRED_THEOREMS = ['OpusProps.C11.' + n for n in (
+    'set_get', 'set_get_decoder', 'set_get_multistream', 'bandwidth_reported_after_frame',
+    'reject_unchanged', 'application_locked_after_first_frame', 'reject_unchanged_decoder',
+    'reject_unchanged_multistream', 'reject_unchanged_ms_decoder',
+    'ctl_inv', 'ctl_inv_decoder', 'ctl_inv_multistream', 'create_rejects', 'create_rejects_multistream',
+    'frame_size_select_spec', 'honour_duration', 'honour_channels', 'honour_channels_midstream',
+    'honour_bandwidth', 'lowdelay_celt_only', 'short_frames_celt_only', 'encode_keeps_inv')]
+UNPROVED = [
+    'int_ranges: C int arithmetic is modelled as unbounded Int; that every product in frame_size_select / the budget '
+    'computation stays below 2^31 on the legal domain is not a Lean theorem (UBSan covers the explored inputs; the harness '
+    'avoids frame_size > INT_MAX/400 where 400*new_size overflows in the C code)',
+    'MsInv after opus_multistream_encode: proved for creation and every ctl request; that a multistream encode call keeps the '
+    'streams\' first/application in agreement is monitored by the tie, not proved',
+    'projection encoder/decoder creation and the surround layout tables: modelled and tied (suite ctl-create), no theorem',
 ]
 LEVEL_TEXT = ('proof of the modelled chain: every ctl request of encoder/decoder/multistream/projection objects as a state '
               'machine with set/get read-back, rejection-leaves-state-unchanged and a range invariant over all request and '
@@ -48,6 +58,17 @@ LEVEL_NOTE = ('trusted: Lean kernel; harness + line protocol; DSP-dependent deci
 TECHNIQUE = 'Lean 4 theorems over an executable ctl/decision-chain model + differential correspondence + witness search'
 
 _EXTRA = ['-Wl,--wrap=malloc', '-Wl,--wrap=free']
+_ENV = {'ASAN_OPTIONS': 'detect_leaks=1:abort_on_error=0', 'UBSAN_OPTIONS': 'print_stacktrace=1'}
+
+ENC_GET = [4001, 4003, 4023, 4005, 4009, 4017, 4011, 4013, 4015, 4007, 11019, 4021, 4025, 4027, 4029, 4031, 4037, 4041,
+           4043, 4047, 4049]
+DEC_GET = [4009, 4011, 4031, 4029, 4033, 4045, 4039, 4047]
+# setter -> getter that must read it back (opus_defines.h); 4008/4009 and the multistream 4002/4003 pair are the two
+# recorded read-back deviations and are probed separately under suite `ctl-readback`
+ENC_PAIR = {4000: 4001, 4002: 4003, 4022: 4023, 4004: 4005, 4016: 4017, 4010: 4011, 4012: 4013, 4014: 4015, 4006: 4007,
+            11018: 11019, 4020: 4021, 4024: 4025, 4036: 4037, 4040: 4041, 4042: 4043, 4046: 4047}
+DEC_PAIR = {4010: 4011, 4034: 4045, 4046: 4047}
+MS_FWD_GET = {4037, 4007, 4001, 4009, 4011, 4015, 4017, 11019, 4021, 4025, 4027, 4029, 4013, 4023, 4043, 4047}
 
 
 def _harness(ctx):
@@ -57,16 +78,246 @@ def _harness(ctx):
 def ties(ctx):
     h = _harness(ctx)
     q = ctx.quick
-    env = {'ASAN_OPTIONS': 'detect_leaks=1:abort_on_error=0', 'UBSAN_OPTIONS': 'print_stacktrace=1'}
     out = []
-    out.append(common.run_tie('ctl-funcs', [h, 'funcs'], env=env))
-    out.append(common.run_tie('ctl-create', [h, 'create', '0' if q else '1'], env=env))
-    out.append(common.run_tie('ctl-grid', [h, 'grid', '0' if q else '1'], env=env))
-    out.append(common.run_tie('ctl-rand', [h, 'rand', str(ctx.seed), '400' if q else '6000'], env=env))
-    out.append(common.run_tie('ctl-chain', [h, 'chain', str(ctx.seed), '250' if q else '4000'], env=env))
-    out.append(common.run_tie('ctl-honour', [h, 'honour', str(ctx.seed), '700' if q else '12000'], env=env))
+    out.append(common.run_tie('ctl-honour-dtx', [h, 'honourdtx'], env=_ENV))     # corpus of past failures first
+    out.append(common.run_tie('ctl-funcs', [h, 'funcs'], env=_ENV))
+    out.append(common.run_tie('ctl-create', [h, 'create', '0' if q else '1'], env=_ENV))
+    out.append(common.run_tie('ctl-grid', [h, 'grid', '0' if q else '1'], env=_ENV))
+    out.append(common.run_tie('ctl-rand', [h, 'rand', str(ctx.seed), '400' if q else '6000'], env=_ENV))
+    out.append(common.run_tie('ctl-chain', [h, 'chain', str(ctx.seed), '250' if q else '4000'], env=_ENV))
+    out.append(common.run_tie('ctl-honour', [h, 'honour', str(ctx.seed), '700' if q else '12000'], env=_ENV))
     return out
 
 
-def classify(ctx, tie, mm):
+# ------------------------------------------------------------------ property predicates on the implementation's own output
+
+def _rng(lo, hi, *extra):
+    return lambda v, nch: lo <= v <= hi or v in extra
+
+
+# documented legal arguments (include/opus_defines.h, src/opus_private.h); independent of the Lean model
+ENC_LEGAL = {4000: lambda v, n: v in (2048, 2049, 2051), 4002: lambda v, n: v in (-1000, -1) or v > 0,
+             4022: lambda v, n: v == -1000 or 1 <= v <= n, 4004: _rng(1101, 1105), 4008: _rng(1101, 1105, -1000),
+             4016: _rng(0, 1), 4010: _rng(0, 10), 4012: _rng(0, 2), 4014: _rng(0, 100), 4006: _rng(0, 1),
+             11018: _rng(-1, 100), 4020: _rng(0, 1), 4024: lambda v, n: v in (-1000, 3001, 3002), 4036: _rng(8, 24),
+             4040: _rng(5000, 5009), 4042: _rng(0, 1), 4046: _rng(0, 1), 11002: _rng(1000, 1002, -1000)}
+DEC_LEGAL = {4010: _rng(0, 10), 4034: _rng(-32768, 32767), 4046: _rng(0, 1)}
+MS_FWD_SET = {4036, 4010, 4006, 4020, 4004, 4008, 4024, 4000, 4012, 4014, 4016, 11002, 4022, 4042, 4046}
+MSDEC_FWD_SET = {4034, 4046}
+
+
+def _fss_spec(frame_size, vd, fs):
+    """frame_size_select as documented (OPUS_SET_EXPERT_FRAME_DURATION): -1 = refused."""
+    num = {5001: 1, 5002: 2, 5003: 4, 5004: 8, 5005: 16, 5006: 24, 5007: 32, 5008: 40, 5009: 48}
+    if frame_size < fs // 400:
+        return -1
+    if vd == 5000:
+        new = frame_size
+    elif vd in num:
+        new = fs * num[vd] // 400
+    else:
+        return -1
+    if new > frame_size or new not in [fs * n // 400 for n in num.values()]:
+        return -1
+    return new
+
+
+def _split_snap(kind, snap):
+    """-> (object-level getter columns, [per-stream column lists])"""
+    parts = snap.split(';')
+    return parts[0].split(','), [p.split(',') for p in parts[1:]]
+
+
+def _history_violations(inp, outp):
+    """Evaluate reject_unchanged and set_get on one `ctl <obj> … ops` history as answered by the implementation.
+    Returns a list of (suite, minimal input, expected, observed, why)."""
+    tok = inp.split()
+    if len(tok) < 3 or tok[0] != 'ctl' or tok[1] not in ('enc', 'dec', 'msenc', 'mssur', 'projenc', 'msdec'):
+        return []
+    kind = tok[1]
+    nhdr = {'enc': 5, 'dec': 4, 'msenc': 8, 'mssur': 6, 'projenc': 5, 'msdec': 7}[kind]
+    hdr, ops = tok[:nhdr], tok[nhdr:]
+    ans = outp.split()
+    if len(ans) != len(ops):           # create failed (single error token) or a trap
+        return []
+    res = []
+    nch = int(hdr[3])
+    getl = DEC_GET if kind in ('dec', 'msdec') else ENC_GET
+    pair = DEC_PAIR if kind in ('dec', 'msdec') else ENC_PAIR
+    prev = None                        # (every history starts with a getter: its snapshot is the initial state)
+    for i, op in enumerate(ops):
+        a = ans[i]
+        if '/' not in a:
+            return res
+        ret, snap = a.split('/', 1)
+        prefix = ' '.join(hdr + ops[:i + 1])
+        if op[0] != 'E' and op[0] != 'D' and not ret.startswith('OK') and prev is not None and snap != prev:
+            res.append(('ctl-reject', prefix, 'state unchanged after %s' % ret, snap,
+                        'a ctl call that returned %s changed the observable state (getters / hidden fields)' % ret))
+        if op[0] == 's':
+            rid, v = op[1:].split(':'); rid = int(rid); v = int(v)
+            legal_tab = DEC_LEGAL if kind in ('dec', 'msdec') else ENC_LEGAL
+            fwd = {'enc': None, 'dec': None, 'msdec': MSDEC_FWD_SET}.get(kind, MS_FWD_SET | {4002, 4040})
+            if rid in legal_tab and (fwd is None or rid in fwd) and ret in ('OK', 'BAD_ARG'):
+                ok = legal_tab[rid](v, nch if kind == 'enc' else 2)
+                if kind not in ('enc', 'dec') and rid == 4022 and v in (1, 2):
+                    ok = None          # depends on the stream layout (forced stereo is refused when a mono stream exists)
+                if rid == 4000 and ok and prev is not None:
+                    # OPUS_SET_APPLICATION: refused after the first coded frame unless it restates the application
+                    pcols = prev.split(';')[-1].split(',')
+                    first, app = pcols[len(ENC_GET) + 4], pcols[0]
+                    if first == '0' and str(v) != app:
+                        ok = False
+                if ok is True and ret != 'OK':
+                    res.append(('ctl-legal', prefix, 'OK', ret, 'a documented-legal value (%d) of request %d was refused' % (v, rid)))
+                if ok is False and ret == 'OK':
+                    res.append(('ctl-legal', prefix, 'BAD_ARG', ret, 'an illegal value (%d) of request %d was accepted' % (v, rid)))
+        if op[0] == 'n' and ret != 'BAD_ARG' and ret != 'UNIMPLEMENTED':
+            res.append(('ctl-legal', prefix, 'BAD_ARG', ret, 'a getter called with a NULL pointer must return OPUS_BAD_ARG'))
+        if op[0] == 'u' and ret != 'UNIMPLEMENTED':
+            res.append(('ctl-legal', prefix, 'UNIMPLEMENTED', ret, 'an unknown request number must return OPUS_UNIMPLEMENTED'))
+        if op[0] == 's' and ret.startswith('OK'):
+            top, streams = _split_snap(kind, snap)
+            if rid in pair:
+                g = pair[rid]; col = getl.index(g)
+                exp = v
+                if rid == 4002:
+                    if v in (-1000, -1):
+                        exp = None
+                    elif kind == 'enc':
+                        exp = min(max(v, 500), 300000 * nch)
+                    else:
+                        exp = None     # multistream GET_BITRATE: recorded deviation, probed in _readback_probes
+                if exp is not None:
+                    cols = []
+                    if kind in ('enc', 'dec'):
+                        cols = [top[col]]
+                    elif kind == 'msdec':
+                        cols = [st[col] for st in streams]
+                    elif rid == 4040:
+                        cols = [top[col]]          # a multistream-level setting (not fanned out)
+                    else:
+                        cols = [st[col] for st in streams] + ([top[col]] if g in MS_FWD_GET else [])
+                    for c in cols:
+                        if c != str(exp):
+                            res.append(('ctl-readback', prefix + ' g%d' % g, str(exp), c,
+                                        'setter %d(%d) returned OK but getter %d reports %s' % (rid, v, g, c)))
+                            break
+        prev = snap
+    return res
+
+
+def _create_violation(inp, outp):
+    tok = inp.split()
+    if tok[:2] != ['ctl', 'create']:
+        return None
+    if 'INCONSISTENT' in outp:
+        return ('ctl-create', inp, 'object XOR error', outp, 'create returned an object together with an error code (or neither)')
+    m = re.search(r'live=(\d+)', outp)
+    if m and m.group(1) != '0':
+        return ('ctl-create', inp, 'live=0', outp, 'memory still allocated after a failed create / after destroy (leak)')
+    if tok[2] in ('enc', 'dec'):
+        fs, ch = int(tok[3]), int(tok[4])
+        legal = fs in (8000, 12000, 16000, 24000, 48000) and ch in (1, 2)
+        if tok[2] == 'enc':
+            legal = legal and int(tok[5]) in (2048, 2049, 2051)
+        failk = int(tok[-1])
+        exp = 'BAD_ARG' if not legal else ('ALLOC_FAIL' if failk == 0 else 'OK')
+        if outp.split()[0] != exp:
+            return ('ctl-create', inp, exp, outp, 'create must accept exactly the documented rates/channels/applications '
+                    'and report a failed allocation as OPUS_ALLOC_FAIL')
     return None
+
+
+def _run_lines(cmd):
+    e = dict(os.environ); e.update(_ENV)
+    p = subprocess.run(cmd, stdout=subprocess.PIPE, stderr=subprocess.DEVNULL, text=True, env=e)
+    cur = None
+    for line in p.stdout.split('\n'):
+        if line.startswith('I '):
+            cur = line[2:]
+        elif line.startswith('O ') and cur is not None:
+            yield cur, line[2:]
+            cur = None
+
+
+def classify(ctx, tie, mm):
+    inp, impl, model = mm.get('input', ''), mm.get('impl', ''), mm.get('model', '')
+    if tie.name.startswith('ctl-honour'):
+        # the model side of this suite IS the property predicate evaluated on the implementation's packets
+        if model.startswith('VIOLATES'):
+            return {'suite': tie.name, 'input': inp, 'expected': 'OK (settings honoured by every packet)', 'observed': model,
+                    'why': 'a packet produced by opus_encode contradicts the settings in force: ' + model}
+        return None
+    for v in _history_violations(inp, impl):
+        return {'suite': v[0], 'input': v[1], 'expected': v[2], 'observed': v[3], 'why': v[4]}
+    v = _create_violation(inp, impl)
+    if v:
+        return {'suite': v[0], 'input': v[1], 'expected': v[2], 'observed': v[3], 'why': v[4]}
+    if impl in ('SANITIZER', 'ABORT', 'SIGSEGV'):
+        return {'suite': tie.name, 'input': inp, 'expected': model, 'observed': impl,
+                'why': 'ctl/create/encode call trapped (%s): %s' % (impl, '; '.join(mm.get('sanitizer_report', [])[:3]))}
+    if tie.name == 'ctl-funcs' and inp.startswith('ctl fss'):
+        a = [int(x) for x in inp.split()[2:5]]
+        if str(_fss_spec(*a)) != impl.strip():
+            return {'suite': tie.name, 'input': inp, 'expected': str(_fss_spec(*a)), 'observed': impl,
+                    'why': 'frame_size_select does not select the documented duration (OPUS_SET_EXPERT_FRAME_DURATION)'}
+    if tie.name == 'ctl-funcs' and inp.startswith('ctl toc'):
+        # gen_toc is proved to code mode/bandwidth/channels/duration (genToc_*, spf_genToc): a different byte breaks that
+        return {'suite': tie.name, 'input': inp, 'expected': model, 'observed': impl,
+                'why': 'gen_toc differs from the TOC layout proved to carry mode, bandwidth, channel count and frame duration'}
+    return None
+
+
+def search(ctx):
+    """S4: the property predicates evaluated on the implementation alone (no model): a failing ctl leaves every getter and
+    hidden field unchanged; an accepted setter is reported by its getter; create accepts exactly the documented
+    arguments, leaks nothing, reports allocation failure."""
+    h = _harness(ctx)
+    t0 = time.time()
+    cases = 0
+    kinds = set()
+    wit = []
+    samples = []
+    seen = set()
+    runs = [[h, 'grid', '0' if ctx.quick else '1'], [h, 'rand', str(ctx.seed + 1000), '300' if ctx.quick else '4000'],
+            [h, 'create', '0' if ctx.quick else '1']]
+    for cmd in runs:
+        for inp, outp in _run_lines(cmd):
+            cases += 1
+            tok = inp.split()
+            if tok[1] == 'create':
+                kinds.add(('create', tok[2], outp.split()[0]))
+                v = _create_violation(inp, outp)
+                vs = [v] if v else []
+            else:
+                vs = _history_violations(inp, outp)
+                for a in outp.split():
+                    kinds.add((tok[1], a.split('/')[0].split('=')[0]))
+            for v in vs:
+                key = (v[0], v[4][:60])
+                if key in seen:
+                    continue
+                seen.add(key)
+                wit.append({'suite': v[0], 'input': v[1], 'expected': v[2], 'observed': v[3], 'why': v[4]})
+            if len(samples) < 3 and len(inp) < 200:
+                samples.append('%s -> %s' % (inp, outp[:120]))
+    # the two recorded read-back deviations, probed deterministically (KNOWN-FINDING while they exist)
+    probes = [('ctl enc 48000 2 2049', 's4008:1101', 'g4009', ENC_GET.index(4009), '1101', False),
+              ('ctl msenc 48000 3 2 1 x000102 2049', 's4002:64000', 'g4003', ENC_GET.index(4003), '64000', True)]
+    for hdr, sop, gop, col, exp, ms in probes:
+        for inp, outp in _run_lines([h, 'probe', hdr.split()[1]]):
+            cases += 1
+            if not inp.startswith(hdr + ' g4029 ' + sop):
+                continue
+            ans = outp.split()
+            if len(ans) < 2 or '/' not in ans[1]:
+                continue
+            ret, snap = ans[1].split('/', 1)
+            got = snap.split(';')[0].split(',')[col]
+            if ret.startswith('OK') and got != exp:
+                wit.append({'suite': 'ctl-readback', 'input': '%s %s %s' % (hdr, sop, gop), 'expected': exp, 'observed': got,
+                            'why': 'the setter returned OK but the getter of the same name does not report the value'})
+    return {'cases': cases, 'distinct': len(kinds), 'seconds': round(time.time() - t0, 1),
+            'oracle': 'reject_unchanged + set_get + create_rejects evaluated on the implementation output (no model)',
+            'samples': samples, 'witnesses': wit}
